@@ -720,6 +720,9 @@ class STensor:
         if isinstance(value, (tuple, list)):
             value = STensor.from_nested(list(value))  # numpy / torch accept sequences on the right-hand side
         if isinstance(value, STensor):
+            if value.ndim > 0 and value.dtype.is_floating_point and self.dtype.is_floating_point and \
+                    _FLOAT_WIDTH.get(value.dtype.name, 32) < _FLOAT_WIDTH.get(self.dtype.name, 32):
+                PRECISION_EVENTS.append((value.dtype.name, self.dtype.name))  # values computed in a narrower float type stored into a wider tensor
             v = value.expand(shape) if tuple(value.shape) != tuple(shape) else value
             vals = v.flat()
         else:
